@@ -4,9 +4,11 @@ import (
 	"context"
 	"errors"
 	"fmt"
+	"io"
 	"math"
 	"os"
 	"os/exec"
+	"path/filepath"
 	"runtime"
 	"runtime/debug"
 	"strconv"
@@ -17,6 +19,7 @@ import (
 
 	"github.com/go-kit/log"
 	"github.com/prometheus/client_golang/prometheus"
+	"github.com/thanos-io/objstore"
 
 	"github.com/thanos-io/thanos/pkg/block/indexheader"
 	"github.com/thanos-io/thanos/verifharness/hlib"
@@ -29,6 +32,10 @@ import (
 //       item := q (PostingsOffsets / LabelValues / LabelNames, in turn) | u (unloadIfIdleSince(0))
 //             | b (unloadIfIdleSince(1): never idle) | p (isIdleSince(far future))
 //     -> <result>(,<result>)* loads=<n> unloads=<n>      result := ok | err | unloaded | noop | notidle | p0 | p1
+//   lz.seqf <item>(,<item>)*    as lz.seq with x (the header file is deleted and the bucket goes down: the next
+//       NewBinaryReader fails) and h (the bucket is back); result also lerr; -> … loads=<n> failed=<n> unloads=<n>
+//   lz.pool <0|1> <op>(,<op>)*  a real ReaderPool (1 = idle timeout 1h, 0 = none): n | u<i> | a<i> (last use moved
+//       2h back) | c<i> | s (closeIdleReaders)  -> per op <tracked bits>/<loaded bits>, unloads=<n>
 //   lz.sched <kinds> <schedule>   model-only interleavings (corpus); the harness answers what the model must answer
 //   o.lz.stress <readers> <unloaders> <calls per reader> <GOMAXPROCS> <seed>
 //       real goroutines on one LazyBinaryReader (mmapped header file) in a child process; every
@@ -191,6 +198,16 @@ func execC16(c *hlib.Ctx, tok []string) string {
 			}
 		}
 		return fmt.Sprintf("%s loads=%d unloads=%d", hlib.Join(out, ","), f.counter("indexheader_lazy_load_total"), f.counter("indexheader_lazy_unload_total"))
+	case "lz.seqf":
+		if len(tok) != 2 {
+			return "bad-op"
+		}
+		return c16SeqF(c, tok[1])
+	case "lz.pool":
+		if len(tok) != 3 || (tok[1] != "0" && tok[1] != "1") {
+			return "bad-op"
+		}
+		return c16Pool(c, tok[1] == "1", tok[2])
 	case "lz.sched":
 		// model-only op: the interleavings of the corpus are properties of the model (no use of a
 		// closed or nil reader); the real code cannot be scheduled step by step without hooks
@@ -247,6 +264,256 @@ func execC16(c *hlib.Ctx, tok []string) string {
 		return "violation:crash"
 	}
 	return "bad-op"
+}
+
+// c16Bucket is a bucket that can be switched off.
+type c16Bucket struct {
+	objstore.BucketReader
+	down atomic.Bool
+}
+
+var errC16Down = errors.New("bucket is down")
+
+func (b *c16Bucket) Get(ctx context.Context, name string) (io.ReadCloser, error) {
+	if b.down.Load() {
+		return nil, errC16Down
+	}
+	return b.BucketReader.Get(ctx, name)
+}
+func (b *c16Bucket) GetRange(ctx context.Context, name string, off, length int64) (io.ReadCloser, error) {
+	if b.down.Load() {
+		return nil, errC16Down
+	}
+	return b.BucketReader.GetRange(ctx, name, off, length)
+}
+func (b *c16Bucket) Exists(ctx context.Context, name string) (bool, error) {
+	if b.down.Load() {
+		return false, errC16Down
+	}
+	return b.BucketReader.Exists(ctx, name)
+}
+func (b *c16Bucket) Attributes(ctx context.Context, name string) (objstore.ObjectAttributes, error) {
+	if b.down.Load() {
+		return objstore.ObjectAttributes{}, errC16Down
+	}
+	return b.BucketReader.Attributes(ctx, name)
+}
+
+// c16SeqF: lz.seq in an environment where loading can fail: "x" deletes the index-header file and
+// switches the bucket off (the next NewBinaryReader fails), "h" switches the bucket on again.
+func c16SeqF(c *hlib.Ctx, script string) string {
+	ix, err := buildC11Index(c16Spec)
+	if err != nil {
+		return "err:" + err.Error()
+	}
+	dir, err := os.MkdirTemp("", "verif-c16f-")
+	if err != nil {
+		return "err:" + err.Error()
+	}
+	defer os.RemoveAll(dir)
+	ctx := context.Background()
+	bkt := &c16Bucket{BucketReader: ix.bkt}
+	f := &c16Fixture{ix: ix, dir: dir, reg: prometheus.NewRegistry()}
+	f.lz, err = indexheader.NewLazyBinaryReader(ctx, log.NewNopLogger(), bkt, dir, ix.id, 3,
+		indexheader.NewLazyBinaryReaderMetrics(f.reg), indexheader.NewBinaryReaderMetrics(nil), nil, false)
+	if err != nil {
+		return "err:" + err.Error()
+	}
+	defer f.lz.Close()
+	f.ref, err = indexheader.NewBinaryReader(ctx, log.NewNopLogger(), ix.bkt, "", ix.id, 3, indexheader.NewBinaryReaderMetrics(nil))
+	if err != nil {
+		return "err:" + err.Error()
+	}
+	defer f.ref.Close()
+	var out []string
+	everBroken := false
+	for k, it := range hlib.Split(script, ",") {
+		switch it {
+		case "x":
+			everBroken = true
+			bkt.down.Store(true)
+			_ = os.Remove(filepath.Join(dir, ix.id.String(), "index-header"))
+		case "h":
+			bkt.down.Store(false)
+		case "q":
+			got, err := c16Query(f.lz, k)
+			want, _ := c16Query(f.ref, k)
+			switch {
+			case errors.Is(err, indexheader.VerifErrUnloadedWhileLoading):
+				out = append(out, "err")
+				c.Violation("sequential-call-error", err.Error())
+			case err != nil:
+				out = append(out, "lerr")
+				if !everBroken {
+					c.Violation("load-error-without-cause", err.Error())
+				}
+			case got != want:
+				out = append(out, "ok")
+				c.Violation("answer-differs-from-loaded-header", fmt.Sprintf("lazy %q, always-loaded %q", got, want))
+			default:
+				out = append(out, "ok")
+			}
+		case "u", "b":
+			ts := int64(0)
+			if it == "b" {
+				ts = 1
+			}
+			before := f.counter("indexheader_lazy_unload_total")
+			err := indexheader.VerifUnloadIfIdleSince(f.lz, ts)
+			after := f.counter("indexheader_lazy_unload_total")
+			switch {
+			case errors.Is(err, indexheader.VerifErrNotIdle):
+				out = append(out, "notidle")
+			case err != nil:
+				out = append(out, "err")
+			case after > before:
+				out = append(out, "unloaded")
+			default:
+				out = append(out, "noop")
+			}
+		case "p":
+			if indexheader.VerifIsIdleSince(f.lz, math.MaxInt64) {
+				out = append(out, "p1")
+			} else {
+				out = append(out, "p0")
+			}
+		default:
+			return "bad-op"
+		}
+	}
+	loads, failed := f.counter("indexheader_lazy_load_total"), f.counter("indexheader_lazy_load_failed_total")
+	if failed > loads || failed > 1 && !everBroken {
+		c.Violation("load-counters", fmt.Sprintf("loads=%d failed=%d", loads, failed))
+	}
+	return fmt.Sprintf("%s loads=%d failed=%d unloads=%d", hlib.Join(out, ","), loads, failed, f.counter("indexheader_lazy_unload_total"))
+}
+
+// c16Pool: one real ReaderPool and the lazy readers it hands out, driven call by call.
+func c16Pool(c *hlib.Ctx, tracking bool, script string) string {
+	ix, err := buildC11Index(c16Spec)
+	if err != nil {
+		return "err:" + err.Error()
+	}
+	dir, err := os.MkdirTemp("", "verif-c16p-")
+	if err != nil {
+		return "err:" + err.Error()
+	}
+	defer os.RemoveAll(dir)
+	ctx := context.Background()
+	reg := prometheus.NewRegistry()
+	// an idle timeout of one hour: the pool's own sweeper (every 6 minutes) never runs during the
+	// case; readers are aged by moving their last-use stamp two hours back
+	timeout := time.Hour
+	if !tracking {
+		timeout = 0
+	}
+	pool := indexheader.NewReaderPool(log.NewNopLogger(), true, timeout, indexheader.NewReaderPoolMetrics(reg), indexheader.AlwaysEagerDownloadIndexHeader)
+	defer pool.Close()
+	ref, err := indexheader.NewBinaryReader(ctx, log.NewNopLogger(), ix.bkt, "", ix.id, 3, indexheader.NewBinaryReaderMetrics(nil))
+	if err != nil {
+		return "err:" + err.Error()
+	}
+	defer ref.Close()
+	var readers []*indexheader.LazyBinaryReader
+	defer func() {
+		for _, r := range readers {
+			_ = r.Close()
+		}
+	}()
+	// the oracle's own picture
+	var closed, aged, loaded []bool
+	counter := func() int {
+		mfs, _ := reg.Gather()
+		for _, mf := range mfs {
+			if mf.GetName() == "indexheader_lazy_unload_total" && len(mf.GetMetric()) == 1 {
+				return int(mf.GetMetric()[0].GetCounter().GetValue())
+			}
+		}
+		return -1
+	}
+	bits := func(f func(i int) bool) string {
+		if len(readers) == 0 {
+			return "-"
+		}
+		b := make([]byte, len(readers))
+		for i := range readers {
+			b[i] = '0'
+			if f(i) {
+				b[i] = '1'
+			}
+		}
+		return string(b)
+	}
+	var out []string
+	for k, it := range hlib.Split(script, ",") {
+		idx := -1
+		if len(it) > 1 {
+			n, err := strconv.Atoi(it[1:])
+			if err != nil || n < 0 {
+				return "bad-op"
+			}
+			idx = n
+		}
+		switch {
+		case it == "n":
+			r, err := pool.NewBinaryReader(ctx, log.NewNopLogger(), ix.bkt, dir, ix.id, 3, nil)
+			if err != nil {
+				return "err:" + err.Error()
+			}
+			readers = append(readers, r.(*indexheader.LazyBinaryReader))
+			closed, aged, loaded = append(closed, false), append(aged, false), append(loaded, false)
+		case it == "s":
+			before := append([]bool(nil), loaded...)
+			indexheader.VerifCloseIdleReaders(pool)
+			for i, r := range readers {
+				now := indexheader.VerifIsIdleSince(r, math.MaxInt64)
+				switch {
+				case before[i] && tracking && !closed[i] && aged[i] && now:
+					c.Violation("idle-reader-not-unloaded", fmt.Sprintf("reader %d is tracked, loaded and idle, the sweep left it loaded", i))
+				case before[i] && !aged[i] && !now:
+					c.Violation("busy-reader-unloaded", fmt.Sprintf("reader %d was used within the idle timeout, the sweep unloaded it", i))
+				case !before[i] && now:
+					c.Violation("sweep-loaded-a-reader", fmt.Sprintf("reader %d", i))
+				}
+				loaded[i] = now
+			}
+		case idx >= 0 && idx >= len(readers):
+			// no such reader: nothing happens (in the model as well)
+		case it[0] == 'u':
+			got, err := c16Query(readers[idx], k)
+			want, _ := c16Query(ref, k)
+			if err != nil {
+				c.Violation("sequential-call-error", err.Error())
+			} else if got != want {
+				c.Violation("answer-differs-from-loaded-header", fmt.Sprintf("lazy %q, always-loaded %q", got, want))
+			}
+			aged[idx], loaded[idx] = false, true
+		case it[0] == 'a':
+			indexheader.VerifSetUsedAt(readers[idx], time.Now().Add(-2*time.Hour).UnixNano())
+			aged[idx] = true
+		case it[0] == 'c':
+			if err := readers[idx].Close(); err != nil {
+				c.Violation("close-error", err.Error())
+			}
+			closed[idx], loaded[idx] = true, false
+		default:
+			return "bad-op"
+		}
+		for i, r := range readers {
+			tr := indexheader.VerifIsTracking(pool, r)
+			switch {
+			case closed[i] && tr:
+				c.Violation("closed-reader-still-tracked", fmt.Sprintf("reader %d after %s", i, it))
+			case !closed[i] && tracking && !tr:
+				c.Violation("open-reader-not-tracked", fmt.Sprintf("reader %d after %s", i, it))
+			case !tracking && tr:
+				c.Violation("tracked-without-sweeping", fmt.Sprintf("reader %d after %s", i, it))
+			}
+		}
+		out = append(out, bits(func(i int) bool { return indexheader.VerifIsTracking(pool, readers[i]) })+"/"+
+			bits(func(i int) bool { return indexheader.VerifIsIdleSince(readers[i], math.MaxInt64) }))
+	}
+	return fmt.Sprintf("%s unloads=%d", hlib.Join(out, ","), counter())
 }
 
 // c16Child is the stress run proper (executed in a child process).
@@ -381,6 +648,45 @@ func genC16(c *hlib.Ctx) {
 			c.Count("seq:" + items[j])
 		}
 		c.Do("lz.seq "+strings.Join(items, ","), true)
+	}
+	// load failures
+	for i := 0; i < c.N(40, 300); i++ {
+		n := r.Range(2, 14)
+		items := make([]string, n)
+		for j := range items {
+			items[j] = string("qqqqubpxxh"[r.Intn(10)])
+			c.Count("seqf:" + items[j])
+		}
+		c.Do("lz.seqf "+strings.Join(items, ","), true)
+	}
+	// the pool's set of tracked readers
+	for i := 0; i < c.N(40, 300); i++ {
+		n := r.Range(2, 16)
+		items := []string{"n"}
+		created := 1
+		for j := 1; j < n; j++ {
+			k := r.Intn(created)
+			switch r.Intn(10) {
+			case 0, 1:
+				items = append(items, "n")
+				created++
+			case 2, 3, 4:
+				items = append(items, fmt.Sprintf("u%d", k))
+			case 5, 6:
+				items = append(items, fmt.Sprintf("a%d", k))
+			case 7:
+				items = append(items, fmt.Sprintf("c%d", k))
+			default:
+				items = append(items, "s")
+			}
+			c.Count("pool:" + items[len(items)-1][:1])
+		}
+		tr := "1"
+		if r.Chance(1, 5) {
+			tr = "0"
+			c.Count("pool:not-sweeping")
+		}
+		c.Do("lz.pool "+tr+" "+strings.Join(items, ","), true)
 	}
 	// stress: real goroutines, for a total of a few seconds
 	runs := c.N(6, 40)
